@@ -53,6 +53,7 @@ func NewServer(parse ParseFn, options ...OptionFn) (*Server, error) {
 // Server contains options for listening to an address.
 type Server struct {
 	closing         atomic.Bool
+	mu              sync.RWMutex
 	wg              sync.WaitGroup
 	logger          *slog.Logger
 	types           []func(*pgtype.Map)
@@ -187,7 +188,15 @@ func (srv *Server) newTypeMap() *pgtype.Map {
 func (srv *Server) Close() error {
 	// NOTE: only the call switching the closing state closes the closer
 	// channel, all calls wait until the in-flight commands are handled.
-	if srv.closing.CompareAndSwap(false, true) {
+	//
+	// The closing state is switched while holding the lock to make sure that
+	// no command is admitted in between its closing check and its wait group
+	// registration.
+	srv.mu.Lock()
+	closing := srv.closing.Swap(true)
+	srv.mu.Unlock()
+
+	if !closing {
 		close(srv.closer)
 	}
 
